@@ -111,4 +111,3 @@ func overlayFromPatch(repo, patch string) (map[string][]byte, error) {
 func cmdReplay(args []string) int { return 2 }
 
 func modelSummary(ob *Obligation) string { return trunc2(ob.Model, 4000) }
-
